@@ -10,6 +10,9 @@ C05-d  failure handling: set_chunk_valid's < 1 edge zero-fills, marks failed, re
        and the callbacks turn that into an error return (R1).
 C05-f  multipart state: payload is forwarded only in the data state with size = min(part length, available),
        and the part length is decreased by what was forwarded.
+C05-i  fragmentation (one necessary condition): the search for the part-header terminator over a merged carry-over
+       buffer starts at the unconsumed header, or at most (carried length - K) bytes into it, K being the number of
+       trailing positions the search loop leaves unexamined.
 C05-h  any boundary string: text from the response reaches regcomp() only through a quoting helper.
 Declined: independence from fragmentation as a whole (state machine over all partitions of the byte stream).
 """
@@ -58,6 +61,9 @@ def run(ctx):
             ck.min_instances('error-propagation sites of the download write path', k, 5)
         from ..rules import extra
         extra.check_dl_reset(ck, prog, config, 'C05-g')
+        # ---- i  fragmentation: a resumed terminator search does not skip an unexamined position
+        from ..rules import resume
+        resume.check_resume(ck, prog, config, 'C05-i')
         # ---- h  any boundary string: response text is quoted before it becomes part of a pattern
         from ..rules import submatch
         ni = submatch.check_pattern_injection(ck, prog, config, 'C05-h')
@@ -145,6 +151,36 @@ CLAIM = {
 }
 
 MUTANTS = [
+    {'id': 'm05r', 'desc': 'resumed terminator search skips one position too many (seeded c05)', 'file': 'src/lib/dl/multipart.c',
+     'old': '', 'new': '',
+     'edits': [('src/lib/dl/multipart.c', """    char *buf = b;
+    bool alloc_buf = false;
+""", """    char *buf = b;
+    bool alloc_buf = false;
+    size_t scanned = 0;
+"""), ('src/lib/dl/multipart.c', """        memcpy(buf + mp->buffer_len, b, l);
+""", """        memcpy(buf + mp->buffer_len, b, l);
+        if(mp->buffer_len > 3)
+            scanned = mp->buffer_len - 3;
+"""), ('src/lib/dl/multipart.c', """        char *j = i;
+""", """        char *j = i + scanned;
+        scanned = 0;
+""")], 'expect': 'R4.resume multipart_extract'},
+    {'id': 'n05r', 'desc': 'resumed terminator search skips exactly the examined positions', 'file': 'src/lib/dl/multipart.c',
+     'old': '', 'new': '',
+     'edits': [('src/lib/dl/multipart.c', """    char *buf = b;
+    bool alloc_buf = false;
+""", """    char *buf = b;
+    bool alloc_buf = false;
+    size_t scanned = 0;
+"""), ('src/lib/dl/multipart.c', """        memcpy(buf + mp->buffer_len, b, l);
+""", """        memcpy(buf + mp->buffer_len, b, l);
+        if(mp->buffer_len > 4)
+            scanned = mp->buffer_len - 4;
+"""), ('src/lib/dl/multipart.c', """        char *j = i;
+""", """        char *j = i + scanned;
+        scanned = 0;
+""")], 'expect': None},
     {'id': 'm05q', 'desc': 'boundary pasted into the pattern unquoted (pre-fix form)', 'file': 'src/lib/dl/multipart.c',
      'old': '    char *quoted = quote_for_regex(boundary);', 'new': '    char *quoted = strdup(boundary);',
      'expect': 'R7.pattern-injection add_boundary_to_regex'},
